@@ -509,9 +509,271 @@ def _run_forms(cfg) -> Dict[str, Any]:
     return {"outcome": f"forms:{'accepting' if ref_accepts(version) else 'rejecting'}", "violations": viol[:12],
             "counters": cnt, "form": name, "version": version}
 
+# ---------------------------------------------------------------------------
+# (d) the rejection under a congested outgoing side
+# ---------------------------------------------------------------------------
+class GatedStdin(seams.FakeStdin):
+    """Child that does not read its stdin until released: every send() blocks while the gate is shut."""
+
+    def __init__(self, proc):
+        super().__init__(proc)
+        self.open = False
+        self._gate_waiters: List[Any] = []
+
+    async def send(self, data: bytes):
+        import anyio
+        import asyncio
+
+        self.send_calls += 1
+        if self.closed:
+            raise anyio.ClosedResourceError
+        while not self.open:
+            w = asyncio.get_running_loop().create_future()
+            self._gate_waiters.append(w)
+            await w
+        await asyncio.sleep(0)
+        self.sends.append(bytes(data))
+        self.data += data
+
+    def release(self):
+        self.open = True
+        for w in self._gate_waiters:
+            if not w.done():
+                w.set_result(None)
+        self._gate_waiters.clear()
+
+
+CONGEST_N = [0, 1, 99, 100, 101, 102, 150, 250]
+CONGEST_BATCHES = [["R"], ["RN"], [""], ["R", "XN"]]
+CONGEST_VERSIONS = ["2025-06-18", "2025-06-19", None, "2025-03-26"]
+
+
+def _run_congested(cfg) -> Dict[str, Any]:
+    import asyncio
+
+    import anyio
+    from chuk_mcp.protocol.messages.json_rpc_message import create_request
+    from chuk_mcp.transports.stdio.stdio_client import StdioClient
+
+    version = CONGEST_VERSIONS[cfg["version"]]
+    n = cfg["n"]
+    batches = [line_for(["b", k], i + 1) for i, k in enumerate(CONGEST_BATCHES[cfg["batches"]])]
+    loop = new_loop(horizon=120)
+    q = seams.Quiescence(loop)
+    proc = seams.FakeProcess()
+    proc.stdin = GatedStdin(proc)
+    info: Dict[str, Any] = {}
+
+    async def main():
+        with seams.patched_open_process(lambda cmd, kw: proc) as pp:
+            async with StdioClient(seams.stdio_params()) as client:
+                read, write = client.get_streams()
+                await q.settle()
+                if version is not None:
+                    client.set_protocol_version(version)
+
+                async def app():
+                    for k in range(n):
+                        m = {"jsonrpc": "2.0", "id": k, "method": "app/m"} if k % 2 == 0 else create_request("app/m", None, id=k)
+                        await write.send(m)
+
+                def feed():
+                    for b in batches:
+                        proc.stdout.feed((json.dumps(b) + "\n").encode())
+
+                if cfg["order"] == "queue-first":
+                    t = asyncio.ensure_future(app())
+                    await q.settle()
+                    feed()
+                    await q.settle()
+                else:
+                    feed()
+                    await q.settle()
+                    t = asyncio.ensure_future(app())
+                    await q.settle()
+                info["written_while_blocked"] = len(proc.stdin.sends)
+                info["app_done_while_blocked"] = t.done()
+                proc.stdin.release()
+                await q.settle()
+                await asyncio.wait_for(t, 30)
+                await q.settle()
+                got = []
+                try:
+                    while True:
+                        m = read.receive_nowait()
+                        got.append(_dump(m) if not isinstance(m, list) else {"__python_list__": len(m)})
+                except (anyio.WouldBlock, anyio.EndOfStream, anyio.ClosedResourceError):
+                    pass
+                info["read"] = got
+                info["lines"] = list(proc.stdin.sends)
+            info["spawned"] = len(pp.spawned)
+
+    status, val = loop.run_main(main())
+    errors = loop.collect_errors()
+    loop.abandon()
+    accept = ref_accepts(version)
+    mode = "accepting" if accept else "rejecting"
+    queued = "0" if n == 0 else ("below-buffer" if n < 100 else "buffer-or-more")
+    where = (f"version={version!r} application queued {n} messages ({cfg['order']}), child not reading stdin, "
+             f"batch lines {[json.dumps(b)[:60] for b in batches]}, then the child resumes reading")
+    viol: List[dict] = []
+
+    def bad(cls, msg, **extra):
+        viol.append({"sig": {"class": cls, "mode": mode, "scenario": "congested-outgoing", "queued": queued, **extra},
+                     "msg": f"{msg}; {where}"})
+
+    if status != "ok":
+        bad("did-not-finish", f"{status}: {val!r}", status=status)
+        return {"outcome": "congested:" + status, "violations": viol, "counters": {"sequences": 1}}
+    if info.get("spawned") != 1:
+        raise core.HarnessError("seam missing: StdioClient did not call anyio.open_process")
+    if info["written_while_blocked"]:
+        raise core.HarnessError("gate leaked: bytes reached the child's stdin while it was not reading")
+    app_ids, rejections, other = [], [], []
+    for raw in info["lines"]:
+        try:
+            obj = json.loads(raw.decode("utf-8"))
+        except Exception:  # noqa: BLE001
+            other.append(raw[:80])
+            continue
+        if isinstance(obj, dict) and obj.get("method") == "app/m":
+            app_ids.append(obj.get("id"))
+        elif isinstance(obj, dict) and "error" in obj:
+            rejections.append(raw)
+        else:
+            other.append(raw[:80])
+    if app_ids != list(range(n)):
+        bad("application-messages-lost-or-reordered", f"child received application ids {app_ids[:12]}... ({len(app_ids)} of {n})")
+    if other:
+        bad("unexpected-stdin-traffic", f"{other[:3]}")
+    if accept:
+        valid = [m for b in batches for m in b if classify(m)[0] is not None]
+        if rejections:
+            bad("accepted-batch-answered", f"{len(rejections)} error lines written for batches at an accepting version")
+        if not _same(info["read"], valid):
+            bad("valid-member-not-delivered", f"read stream {info['read']} expected {valid}", member="rotation")
+    else:
+        if len(rejections) != len(batches):
+            bad("rejection-count", f"{len(rejections)} -32600 lines reached the child for {len(batches)} rejected batch line(s): {rejections[:2]}",
+                lines=min(len(rejections), 2), batch="empty" if batches == [[]] else "non-empty")
+        for r in rejections:
+            why = _valid_rejection(r)
+            if why:
+                bad("rejection-malformed", f"rejection line is {why}")
+        if info["read"]:
+            bad("rejected-batch-member-delivered", f"read stream got {info['read']}")
+    if errors:
+        bad("loop-error", f"{errors[:2]}")
+    return {"outcome": f"congested:{mode}", "violations": viol[:12],
+            "counters": {"sequences": 1, "steps": len(batches), "congested-scenarios": 1,
+                         "congested/app-task-blocked-before-release": 0 if info["app_done_while_blocked"] else 1},
+            "n": n, "version": version}
+
+
+# ---------------------------------------------------------------------------
+# (e) a second connection through the same transport object starts with no version negotiated
+# ---------------------------------------------------------------------------
+REENTRY_VERSIONS = [None] + VERSIONS
+REENTRY_BATCHES = ["R", "RN", ""]
+
+
+def _run_reentry(cfg) -> Dict[str, Any]:
+    import anyio
+    from chuk_mcp.transports.stdio.stdio_client import StdioClient
+    from chuk_mcp.transports.stdio.transport import StdioTransport
+
+    carrier = cfg["carrier"]
+    conns = [REENTRY_VERSIONS[i] for i in cfg["versions"]]
+    kinds = REENTRY_BATCHES[cfg["batch"]]
+    loop = new_loop(horizon=120)
+    q = seams.Quiescence(loop)
+    procs: List[Any] = []
+    log: List[dict] = []
+
+    def factory(cmd, kw):
+        procs.append(seams.FakeProcess())
+        return procs[-1]
+
+    async def main():
+        with seams.patched_open_process(factory):
+            obj = StdioTransport(seams.stdio_params()) if carrier == "transport" else StdioClient(seams.stdio_params())
+            for ci, v in enumerate(conns):
+                async with obj:
+                    if carrier == "transport":
+                        read, _w = await obj.get_streams()
+                    else:
+                        read, _w = obj.get_streams()
+                    proc = procs[-1]
+                    await q.settle()
+
+                    async def deliver(tag, negotiated, step):
+                        line = line_for(["b", kinds], step)
+                        proc.stdout.feed((json.dumps(line) + "\n").encode())
+                        await q.settle()
+                        got = {"read": [], "notes": []}
+                        try:
+                            while True:
+                                m = read.receive_nowait()
+                                got["read"].append(_dump(m) if not isinstance(m, list) else {"__python_list__": len(m)})
+                        except (anyio.WouldBlock, anyio.EndOfStream, anyio.ClosedResourceError):
+                            pass
+                        got["stdin"] = list(proc.stdin.sends)
+                        proc.stdin.sends.clear()
+                        log.append({"conn": ci, "tag": tag, "negotiated": negotiated, "line": line, "got": got})
+
+                    await deliver("before-any-version", None, ci * 10 + 1)
+                    if v is not None:
+                        obj.set_protocol_version(v)
+                        await q.settle()
+                        await deliver("after-set", v, ci * 10 + 2)
+
+    status, val = loop.run_main(main())
+    errors = loop.collect_errors()
+    loop.abandon()
+    viol: List[dict] = []
+    cnt: Dict[str, int] = {"sequences": 1, "reentry-scenarios": 1}
+    where0 = f"{carrier} object entered {len(conns)} times, versions set per connection {conns}, batch [{kinds}]"
+    if status != "ok":
+        if carrier == "client":
+            cnt["reentered-bare-client/did-not-finish(recorded)"] = 1
+            return {"outcome": "reentry:client-" + status, "violations": [], "counters": cnt}
+        viol.append({"sig": {"class": "did-not-finish", "scenario": "re-entered-transport", "status": status},
+                     "msg": f"{status}: {val!r}; {where0}"})
+        return {"outcome": "reentry:" + status, "violations": viol, "counters": cnt}
+    if len(procs) != len(conns):
+        raise core.HarnessError(f"{len(procs)} processes spawned for {len(conns)} connections")
+    prev_mode = None
+    for e in log:
+        cnt["steps"] = cnt.get("steps", 0) + 1
+        where = f"connection #{e['conn'] + 1} {e['tag']}; {where0}"
+        fresh_after_reentry = e["conn"] > 0 and e["tag"] == "before-any-version"
+        if fresh_after_reentry and carrier == "client":
+            # a bare StdioClient object entered twice is outside what the statement describes: recorded only
+            rejected = bool(e["got"]["stdin"])
+            prev = conns[e["conn"] - 1]
+            cnt[f"reentered-bare-client/first-batch-{'rejected' if rejected else 'accepted'}"
+                f"/previous-connection-{'rejecting' if not ref_accepts(prev) else 'accepting'}(recorded)"] = \
+                cnt.get(f"reentered-bare-client/first-batch-{'rejected' if rejected else 'accepted'}"
+                        f"/previous-connection-{'rejecting' if not ref_accepts(prev) else 'accepting'}(recorded)", 0) + 1
+            continue
+        sub: List[dict] = []
+        judge_line(e["line"], e["negotiated"], e["got"], where, sub, cnt)
+        for v in sub:
+            if fresh_after_reentry:
+                v["sig"] = {**v["sig"], "scenario": "re-entered-transport-before-handshake"}
+            viol.append(v)
+    if errors:
+        viol.append({"sig": {"class": "loop-error", "scenario": "re-entry"}, "msg": f"{errors[:2]}; {where0}"})
+    return {"outcome": f"reentry:{carrier}:" + ("rejecting-seen" if any(not ref_accepts(c) for c in conns) else "accepting-only"),
+            "violations": viol[:12], "counters": cnt}
+
 
 def run_one(ctl: explorer.Ctl, cfg: Dict[str, Any]) -> Dict[str, Any]:
     part = cfg["part"]
+    if part == "congested":
+        return _run_congested(cfg)
+    if part == "reentry":
+        return _run_reentry(cfg)
     if part == "grid":
         return _run_grid(cfg)
     if part == "specials":
@@ -595,6 +857,23 @@ def run(tier: str, only=None) -> core.Result:
     sched.absorb(res, "c-invalid-member-forms", RUN, out, cfgs)
     samples += _pick("c-invalid-member-forms", cfgs)
 
+    # (d) congested outgoing side, (e) re-entered transport
+    cfgs = [{"part": "congested", "version": vi, "n": n, "order": o, "batches": bi}
+            for vi in range(len(CONGEST_VERSIONS)) for n in CONGEST_N for o in ("queue-first", "batch-first")
+            for bi in range(len(CONGEST_BATCHES))]
+    out = explorer.explore(RUN, cfgs)
+    sched.absorb(res, "d-rejection-while-outgoing-side-congested", RUN, out, cfgs)
+    samples += _pick("d-rejection-while-outgoing-side-congested", cfgs)
+    nv = len(REENTRY_VERSIONS)
+    short3 = [0, 1, 2]  # None, 2025-06-18, 2025-03-26
+    cfgs = [{"part": "reentry", "carrier": c, "versions": vs, "batch": bi}
+            for c in ("transport", "client")
+            for vs in ([[a, b] for a in range(nv) for b in range(nv)] + [[a, b, d] for a in short3 for b in short3 for d in short3])
+            for bi in range(len(REENTRY_BATCHES))]
+    out = explorer.explore(RUN, cfgs)
+    sched.absorb(res, "e-same-object-entered-again", RUN, out, cfgs)
+    samples += _pick("e-same-object-entered-again", cfgs)
+
     cnt: Dict[str, int] = {}
     for pname, p in res.parts.items():
         for k, v in p["counters"].items():
@@ -622,6 +901,9 @@ def run(tier: str, only=None) -> core.Result:
     cov["evaluations"] = cnt.get("strings", 0) + cnt.get("sequences", 0)
     cov["empty_batch_observed"] = {k: v for k, v in cnt.items() if k.startswith("empty-batch/")}
     cov["single_messages"] = {k: v for k, v in cnt.items() if k.startswith("single-")}
+    cov["reentered_bare_client_recorded"] = {k: v for k, v in cnt.items() if k.startswith("reentered-bare-client/")}
+    cov["congested_scenarios"] = cnt.get("congested-scenarios", 0)
+    cov["reentry_scenarios"] = cnt.get("reentry-scenarios", 0)
     cov["operation_alphabet"] = {"small": [op_name(o) for o in OPS_SMALL], "full_size": len(OPS_FULL)}
     cov["depth"] = depth
     cov["exhaustive"] = True
@@ -637,7 +919,11 @@ def run(tier: str, only=None) -> core.Result:
         "StdioClient + scripted child, every step (hence every shorter sequence) is judged against the model. canonical state = negotiated "
         "version (the only field _process_message_data consults; streams are drained after every step); states/transitions = distinct "
         "canonical states / distinct (state, operation) pairs reached. (c) 3x3 real handshakes (preferred x server answer) x 121 batches; "
-        "14 invalid member forms x 6 positions x 6 versions. distinct_nontrivial = distinct observation digests of the blocks"
+        "14 invalid member forms x 6 positions x 6 versions. (d) congested outgoing side: child not reading its stdin, application queues "
+        f"{CONGEST_N} messages (buffer is 100) before / after {len(CONGEST_BATCHES)} batch-line sets arrive at {CONGEST_VERSIONS}, then the child resumes: "
+        "the child's stdin must hold every application message once, in order, and exactly one -32600 line per rejected batch line. "
+        "(e) the same StdioTransport object (and, recorded only, the same bare StdioClient) entered 2-3 times with every version pair / triple: "
+        "every new connection is judged as 'no version negotiated' until its own set_protocol_version. distinct_nontrivial = distinct observation digests of the blocks"
     )
     res.assumptions = [
         "the scripted process implements the subset of anyio.abc.Process the transport uses",
@@ -649,5 +935,9 @@ def run(tier: str, only=None) -> core.Result:
         "malformed version strings other than None/'' (recorded under part a, 'recorded_malformed') are outside the statement",
         "members with a wrong or missing 'jsonrpc' member or a non-integer error code are outside the invalid-item alphabet (accepted by the parser, pinned by the repository's suite)",
         "notification members are judged on the read stream; the additional notification stream is recorded",
+        "a bare StdioClient object that is entered a second time is outside the statement (which connection its stored version belongs to is not defined): "
+        "what it does with the first batch of the new connection is recorded under reentered_bare_client_recorded, not judged; "
+        "StdioTransport creates a fresh client per entry, so its new connection has no negotiated version and must accept batches",
+        "under congestion the position of the -32600 line among the application's messages is not prescribed, only its presence exactly once",
     ]
     return res
